@@ -7,7 +7,16 @@ through harness/agent `VERIF_CMD=disk`, comparing the directory listing (names, 
 every operation; everything observed, and long seeded random histories with the real constants, is validated I->S
 by TLC against the property-level trace specification spec/trace/DiskBoundsTrace.tla with the real byte numbers.
 The statement is the oracle: a listing that differs from the implementation-shaped spec is model drift unless the
-trace specification rejects the observed behaviour."""
+trace specification rejects the observed behaviour.
+
+Two further dimensions of the quantifier are driven the same way (spec action -> driver op -> trace line):
+* graceful stop of the event logger (EvStopIdle/Write/Drop -> `ev_stop` = event_logger::stop() + the task's last
+  flush -> {"e":"ev","kind":"stop"}): push -> stop -> restart cycles over directories found at and beyond the cap
+  (generator mode "evstop", and in the random histories);
+* a rename fault (LogFaultOn/Off, LogWriteRollFails -> `log_pin`/`log_unpin` = the current log file bind-mounted onto
+  itself inside the driver's PRIVATE mount namespace, so that archive_file's fs::rename fails with EBUSY while
+  appending works -> {"e":"fault"} lines and refused writes "ok":0): the size bound must hold throughout
+  (generator mode "logfault", and in the random histories)."""
 import json
 import os
 import random
@@ -43,6 +52,12 @@ ASSUME = [
     "the real limit passed to create_new",
     "the event logger's timer runs on tokio's paused clock (virtual time), one instance per harness process",
     "configured counts are >= 1",
+    "the rename fault is produced by bind-mounting the current log file onto itself in the driver's private mount "
+    "namespace (rename/unlink of the name fail with EBUSY, open-for-append and stat work; the driver verifies that "
+    "a rename really fails before it reports the fault as installed); other ways of making the rename fail "
+    "(append-only attribute, sticky directory) are taken to look the same to RollingLogger",
+    "a graceful stop is event_logger::stop() followed by virtual time until the logger task has ended; stop "
+    "requests are handled at the loop's next wake-up, i.e. before any further periodic flush",
 ]
 
 
@@ -52,8 +67,11 @@ ASSUME = [
 class Proc:
     def __init__(self, exe, cwd, errpath):
         self.err = open(errpath, "ab")
-        self.p = subprocess.Popen([exe], cwd=cwd, stdin=subprocess.PIPE, stdout=subprocess.PIPE, stderr=self.err,
-                                  env=dict(os.environ, VERIF_CMD="disk", RUST_BACKTRACE="0"), bufsize=0)
+        # private mount namespace: the bind mounts of `log_pin` exist only for this process and vanish with it
+        self.p = subprocess.Popen(["unshare", "-m", "--propagation", "private", exe], cwd=cwd,
+                                  stdin=subprocess.PIPE, stdout=subprocess.PIPE, stderr=self.err,
+                                  env=dict(os.environ, VERIF_CMD="disk", RUST_BACKTRACE="0",
+                                           VERIF_PARENT_MNTNS=os.readlink("/proc/self/ns/mnt")), bufsize=0)
         self.buf = b""
         self.errpath = errpath
 
@@ -138,6 +156,10 @@ class World:
         self.rows_extra = {k: [] for k in self.lognames if k != "a"}   # further loggers: own segments
         self.notes = []                                      # op errors / panics seen
         self.nontrivial = False
+        self.pinned = set()                                  # loggers whose current file cannot be renamed at present
+        self.stopped = False                                 # event_logger::stop() handled in this process
+        self.refused = 0                                     # writes the logger refused
+        self.stops_full = 0                                  # graceful stops that found the event directory full
 
     # --- setup ---------------------------------------------------------------------------------------------------
     def prefill(self, arch_units, cur_units, ev, ndumps):
@@ -171,6 +193,9 @@ class World:
             r = self.proc.call({"op": "log_open", "key": k, "dir": self.logs, "name": nm,
                                 "max_size": self.conf["limit"], "max_count": self.conf["maxCount"]})
         e = self.proc.call({"op": "ev_start", "dir": self.events, "cap": self.conf["cap"], "interval_ms": 10})
+        self.stopped = False
+        for k in sorted(self.pinned):                        # the fault is the environment's: it outlives the process
+            r = self.proc.call({"op": "log_pin", "path": os.path.join(self.logs, self.lognames[k])})
         return r["files"], e["files"]
 
     def stop(self):
@@ -258,14 +283,28 @@ class World:
                 self.notes.append({"panic": r["panic"]})
                 continue
             break
-        if not r.get("ok"):
-            self.notes.append({"op": "write", "err": r.get("err"), "panic": r.get("panic")})
+        ok = bool(r.get("ok"))
+        if not ok:
+            self.refused += 1
+            if r.get("panic") or key not in self.pinned:     # refusals under the fault are expected, the rest is noted
+                self.notes.append({"op": "write", "err": r.get("err"), "panic": r.get("panic")})
         v = self.log_view(key, r["files"])
-        row = {"e": "write", "n": nbytes, "files": v["files"]}
+        row = {"e": "write", "n": nbytes, "ok": int(ok), "files": v["files"]}
         (self.rows if key == "a" else self.rows_extra[key]).append(row)
-        if len(v["files"]) >= self.conf["maxCount"]:
+        if len(v["files"]) >= self.conf["maxCount"] or not ok:
             self.nontrivial = True
-        return {"arch": v["arch"], "cur": v["cur"], "dumps": self.dump_view(r["files"])}
+        return {"arch": v["arch"], "cur": v["cur"], "dumps": self.dump_view(r["files"]), "refused": not ok}
+
+    def pin(self, key="a", on=True):
+        """the environment: the rename of this logger's current file fails from now on (on) / works again"""
+        path = os.path.join(self.logs, self.lognames[key])
+        if on == (key in self.pinned) or (on and not os.path.isfile(path)):
+            return {}
+        r = self.proc.call({"op": "log_pin" if on else "log_unpin", "path": path})
+        (self.pinned.add if on else self.pinned.discard)(key)
+        (self.rows if key == "a" else self.rows_extra[key]).append({"e": "fault", "kind": "pin" if on else "unpin"})
+        v = self.log_view(key, r["files"])
+        return {"arch": v["arch"], "cur": v["cur"]}
 
     def push(self, n):
         r = self.proc.call({"op": "ev_push", "n": n})
@@ -279,6 +318,22 @@ class World:
         self.rows.append({"e": "ev", "kind": "tick", "ev": v["ev"]})
         if v["ev"] >= self.conf["cap"]:
             self.nontrivial = True
+        return v
+
+    def evstop(self):
+        """graceful stop: event_logger::stop(), the loop's next wake-up with its last flush, the task ends"""
+        if self.stopped:
+            return {}
+        n0 = len(self.ev_prev)
+        r = self.proc.call({"op": "ev_stop"})
+        self.stopped = True
+        if not r.get("finished"):
+            self.notes.append({"op": "ev_stop", "note": "the event logger task did not end"})
+        v = self.ev_view(r["files"])
+        self.rows.append({"e": "ev", "kind": "stop", "ev": v["ev"]})
+        if n0 >= self.conf["cap"]:
+            self.nontrivial = True
+            self.stops_full += 1
         return v
 
     def remove(self, k):
@@ -352,12 +407,16 @@ def apply_step(w, step, rnd):
         return w.dump()
     if op == "restart":
         return w.restart()
+    if op == "stop":
+        return w.evstop()
+    if op in ("pin", "unpin"):
+        return w.pin(step.get("key", "a"), on=(op == "pin"))
     raise util.ToolError("unknown step %r" % (step,))
 
 
 def expected_of(h):
     return {"arch": [u * UNIT for u in h["arch"]], "cur": h["cur"] * UNIT if h["cur"] >= 0 else -1,
-            "ev": h["ev"], "wrote": h["wrote"], "dumps": h["dumps"]}
+            "ev": h["ev"], "wrote": h["wrote"], "dumps": h["dumps"], "refused": bool(h.get("refused"))}
 
 
 def steps_of_hist(hist, rnd):
@@ -409,6 +468,16 @@ def random_history(rnd, conf, nops, big=False):
     steps = []
     for _ in range(nops):
         x = rnd.random()
+        y = rnd.random()
+        if y < 0.04:
+            # the environment: the rename of a current log file starts / stops failing
+            steps.append({"op": rnd.choice(["pin", "pin", "unpin"]), "key": rnd.choice(["a", "a", "b"])})
+        elif y < 0.07:
+            # graceful stop with events still queued, then (mostly at once) the next run
+            steps.append({"op": "push", "n": rnd.choice([1, 2, 5])})
+            steps.append({"op": "stop"})
+            if rnd.random() < 0.8:
+                steps.append({"op": "restart"})
         if x < 0.45:
             if big:
                 n = rnd.choice([lim // 10, lim // 3, lim // 2, lim - 1, lim, lim + 1, rnd.randint(48, lim // 2)])
@@ -514,9 +583,11 @@ def run(c):
 
     # 1. the design: every state of the three machines (and of the log machine with crash points)
     c.tlc("DiskBounds", "DiskBounds_log.cfg", workers=8, timeout=300,
-          required_actions=["LogWriteNoRoll", "LogWriteRollKeep", "LogWriteRollTrim", "Restart"])
+          required_actions=["LogWriteNoRoll", "LogWriteRollKeep", "LogWriteRollTrim", "LogWriteRollFails",
+                            "LogFaultOn", "LogFaultOff", "Restart"])
     c.tlc("DiskBounds", "DiskBounds_event.cfg", workers=8, timeout=300,
-          required_actions=["EvPush", "EvTickIdle", "EvTickWrite", "EvTickDrop", "EvReaderRemove", "Restart"])
+          required_actions=["EvPush", "EvPushClosed", "EvTickIdle", "EvTickWrite", "EvTickDrop", "EvTickStopped",
+                            "EvStopIdle", "EvStopWrite", "EvStopDrop", "EvReaderRemove", "Restart"])
     c.tlc("DiskBounds", "DiskBounds_dumps.cfg", workers=8, timeout=300,
           required_actions=["DumpWriteKeep", "DumpWriteTrim", "Restart"])
     c.tlc("DiskBounds", "DiskBounds_crash.cfg", workers=8, timeout=600,
@@ -530,10 +601,12 @@ def run(c):
 
     # 2. behaviours from the spec (simulation, seeded): all machines interleaved + each machine alone
     plans = [("all", 14, 150 if thorough else 22), ("log", 14, 200 if thorough else 14),
-             ("event", 12, 40 if thorough else 5), ("dumps", 10, 10 if thorough else 3)]
+             ("event", 12, 40 if thorough else 5), ("dumps", 10, 10 if thorough else 3),
+             # directed: stop/restart cycles over full event directories; writes while the rename fails
+             ("evstop", 12, 60 if thorough else 8), ("logfault", 12, 40 if thorough else 6)]
     if thorough:
-        plans += [("all", 40, 100), ("log", 60, 60)]
-    hists = []
+        plans += [("all", 40, 100), ("log", 60, 60), ("evstop", 30, 30), ("logfault", 30, 30)]
+    hists, directed = [], []
     for k, (machine, depth, num) in enumerate(plans):
         res = c.tlc("DiskBoundsGen", "DiskBoundsGen.cfg", subdir="gen", workers=1, coverage=False, timeout=900,
                     simulate=num, depth=depth + 2, seed=c.seed + k,
@@ -542,19 +615,41 @@ def run(c):
         hs = tlcmod.printed_json(res, "REPLAY")
         if not hs:
             raise util.ToolError("generator printed no behaviour for %s" % machine)
-        hists += hs
-    seen, uniq = set(), []
-    for h in hists:
-        key = json.dumps(h, sort_keys=True)
-        if key not in seen:
-            seen.add(key)
-            uniq.append(h)
+        if machine in ("evstop", "logfault"):
+            directed += hs
+        else:
+            hists += hs
+
+    def dedup(hs, seen):
+        out = []
+        for h in hs:
+            key = json.dumps(h, sort_keys=True)
+            if key not in seen:
+                seen.add(key)
+                out.append(h)
+        return out
+    seen = set()
+    directed = dedup(directed, seen)
+    uniq = dedup(hists, seen)
     rnd.shuffle(uniq)
+    rnd.shuffle(directed)
     limit_n = 6000 if thorough else 420
-    uniq = uniq[:limit_n]
+    uniq = directed[:limit_n // 3] + uniq[:limit_n]           # the cut never removes a whole directed family
+    # anti-vacuity of the two directed dimensions: the behaviours to replay contain graceful stops with events
+    # queued over a full directory, and writes that need a roll while the rename fails
+    cap = MODEL["cap"]
+    stop_at_cap = sum(1 for h in uniq for i in range(1, len(h))
+                      if h[i]["op"] == "stop" and h[i - 1]["q"] > 0 and h[i - 1]["ev"] >= cap)
+    refusals = sum(1 for h in uniq for x in h[1:] if x.get("refused"))
+    c.extra["stops_over_full_directory_replayed"] = stop_at_cap
+    c.extra["writes_during_rename_fault_needing_a_roll_replayed"] = refusals
+    if stop_at_cap < 3 or refusals < 10:
+        raise util.ToolError("generated behaviours do not exercise stop-at-cap (%d) / refused writes (%d)"
+                             % (stop_at_cap, refusals))
     util.log("replaying %d generated behaviours" % len(uniq))
 
     segs, cases, drifts, notes = [], {}, [], []
+    refused_seen = 0
     t = util.Timer()
     for i, h in enumerate(uniq):
         case = {"conf": MODEL, "init": {k: h[0][k] for k in ("arch", "cur", "ev", "dumps")},
@@ -567,6 +662,7 @@ def run(c):
         c.count(json.dumps([h[0]] + case["steps"], sort_keys=True) if w.nontrivial else None, n=len(case["steps"]))
         c.traces_validated += 1
         notes += w.notes
+        refused_seen += w.refused
         if drift:
             drifts.append(dict(drift, behaviour=o))
         if i == 0:
@@ -575,15 +671,19 @@ def run(c):
                       "observed_last_line": w.rows[-1]})
     util.log("replay S->I: %d behaviours, %d drifts in %ss" % (len(uniq), len(drifts), t.s()))
     c.extra["behaviours_replayed"] = len(uniq)
+    c.extra["writes_refused_by_the_real_logger"] = refused_seen
 
     # 3. random histories, real constants (counts 5 / 30 / 5; the 10 MiB limit in the 'real' ones)
     nsmall, nops = (60, 400) if thorough else (10, 250)
     nbig = 4 if thorough else 1
+    rand_refused = rand_stops_full = 0
     for i in range(nsmall + nbig):
         big = i >= nsmall
         conf = dict(REAL) if big else dict(REAL, limit=rnd.choice([256, 1000, 4096]))
         steps = random_history(rnd, conf, 70 if big else nops, big=big)
-        case = {"conf": conf, "init": {"arch": [], "cur": -1, "ev": 0, "dumps": []}, "steps": steps,
+        # the event directory found by the first run: empty, one below the cap, at the cap
+        ev0 = [0, conf["cap"], conf["cap"] - 1][i % 3]
+        case = {"conf": conf, "init": {"arch": [], "cur": -1, "ev": ev0, "dumps": []}, "steps": steps,
                 "expect": None, "loggers": (("a", LOG_A), ("b", LOG_B))}
         w, _ = run_behaviour(rundir, exe, "r", case, rnd)
         o = "rand%d" % i
@@ -592,11 +692,15 @@ def run(c):
             segs.append((o, s))
         c.count(json.dumps(steps, sort_keys=True) if w.nontrivial else None, n=len(steps))
         notes += w.notes
+        rand_refused += w.refused
+        rand_stops_full += w.stops_full
         if i == 0 or big:
             c.sample({"kind": "random history, real counts" + (", real 10 MiB limit" if big else ""), "conf": conf,
                       "first_ops": steps[:12], "n_ops": len(steps), "observed_last_line": w.rows[-1]})
     shutil.rmtree(os.path.join(rundir, "r"), ignore_errors=True)
     c.extra["random_histories"] = nsmall + nbig
+    c.extra["random_histories_writes_refused"] = rand_refused
+    c.extra["random_histories_stops_over_full_directory"] = rand_stops_full
 
     # 4. I->S: everything observed, against the property
     nrows = sum(len(r) for _, r in segs)
@@ -653,12 +757,15 @@ def run(c):
     c.states, c.transitions = st0, tr0
     shutil.rmtree(os.path.join(rundir, "b"), ignore_errors=True)
     c.rule = ("states/transitions: exhaustive TLC runs of DiskBounds (log, event, dumps, log+crash points) with "
-              "max=3, limit=4, writes 1..6, directories pre-filled to and beyond the limits; S->I: behaviours "
-              "simulated from the spec (seeded) replayed on the real code, listing compared after every operation; "
+              "max=3, limit=4, writes 1..6, directories pre-filled to and beyond the limits, the rename fault switched "
+              "on and off anywhere (log), graceful stops of the event logger anywhere (event); S->I: behaviours "
+              "simulated from the spec (seeded; undirected plus the directed families stop/restart cycles over full "
+              "event directories and writes under the rename fault) replayed on the real code, listing and "
+              "accepted/refused compared after every operation; "
               "I->S: all observed lines plus seeded random histories with the real counts validated by TLC against "
               "the property; evaluations = operations executed on the real code; distinct_nontrivial = distinct "
               "operation sequences in which a bound was actually reached (log files = max, event files >= cap, "
-              "dumps = max)")
+              "dumps = max, a write refused because the roll failed)")
 
 
 def replay(c, path):
